@@ -41,6 +41,8 @@ def run():
 
     # Tie B: frame_of vs RQ Compute.window; emit_frame vs the OVER (...) text -- exhaustive
     C.run(ck, supports_from(info))
+    # Tie B': scope_run (flatten.rs partition / frame bookkeeping) vs RQ Compute.window of nested programs
+    C.run_scope(ck)
 
     # end-to-end: SQLite vs the reference semantics
     cases = S.with_instances(ck, S.directed_cases(ck), n_inst=mult)
